@@ -35,6 +35,9 @@ def cells(tier):
                 sc = scen(pool(size), [G[gn], H["A2"], [cgroup("G")], [cancel(rid("G", 0))]], outcomes=["ret"],
                           ecb="plain", ccb="plain", inline={"actors": [2], "at": at})
                 out.append(cell(f"inline s{size} G={gn} H=A2 cgroup@{'/'.join(at)} cancelG0", sc, MON))
+        for on, o in {"cgroup(msg)": ["cancel_group", "G", {"msg": "bye"}], "call(msg)": ["cancel_all", {"msg": "bye"}]}.items():
+            sc = scen(pool(size), [G["A3"], H["A2"], [o]], outcomes=["ret"], ecb="plain", ccb="plain", inline={"actors": [2], "at": ["w_start", "w_resume"]})
+            out.append(cell(f"inline s{size} G=A3 H=A2 {on}@w_start/w_resume", sc, MON))
         sc = scen(pool(size), [G["M3/1"], H["A2"], [["cancel_group", "?nope"]], [cgroup("G")]], outcomes=["ret", "exc"])
         out.append(cell(f"s{size} G=M3/1 H=A2 unknown-name cgroup", sc, MON))
     for size in [1, 2]:
